@@ -43,6 +43,19 @@ def deep(e, depth=0):
     return (type(e).__name__, e.name, dt, t, tuple(deep(c, depth + 1) for c in kids) if depth < 8 else ())
 
 
+def first_leaf(e):
+    """the first valued SubComponent below e (depth first)"""
+    for c in e.children:
+        if type(c).__name__ == 'SubComponent':
+            if c.to_er7() != '':
+                return c
+        else:
+            x = first_leaf(c)
+            if x is not None:
+                return x
+    return None
+
+
 class RejSpec(c09.ListSpec):
     def __init__(self, *a, **kw):
         self.container = kw.pop('container', None)
@@ -98,6 +111,11 @@ class RejSpec(c09.ListSpec):
             r.append(('rej_set_version', n))
             r.append(('rej_setidx_level', n, 0))
             r.append(('rej_setidx_level', n, 1))
+        # a value refused by a leaf that already holds one (assigned to the subcomponent object itself)
+        r.append(('rej_leaf_value', 'number'))
+        r.append(('rej_leaf_value', 'list'))
+        if self.level == STRICT:
+            r.append(('rej_leaf_value', 'too-long'))
         for n in self.names:
             r.append(('rej_dt_object', n))
             # a child that already belongs to another element, refused by the second stage of admission
@@ -201,6 +219,11 @@ class RejSpec(c09.ListSpec):
                 c.parent = r
             else:
                 r.add(c)
+        elif k == 'rej_leaf_value':
+            leaf = first_leaf(r)
+            if leaf is None:
+                raise LookupError('no valued leaf')
+            leaf.value = {'number': 3.5, 'list': ['x'], 'too-long': 'y' * 70000}[op[1]]
         elif k == 'rej_dt_change':
             getattr(r, op[1])[0].datatype = 'HD' if self.kind == 'segment' else 'CE'
         elif k == 'rej_overflow':
@@ -295,6 +318,9 @@ _add(RejSpec('seg-in-msg-T', 'segment', TOLERANT, 'PID', 'PID|1||A~B', A.PID_NAM
 # empty targets: nothing to fall back on when a value is refused midway
 _add(RejSpec('seg-empty-S', 'segment', STRICT, 'PID', '', A.PID_NAMES, A.PID_VALUES, A.PID_MAX, A.PID_LONG, 'PID|9||D1~D2||DN'))
 _add(RejSpec('grp-empty-S', 'group', STRICT, 'ADT_A01_INSURANCE', '', A.GRP_NAMES, A.GRP_VALUES, A.GRP_MAX, None, 'IN1|9|D\rIN3|9'))
+# segments that take fields beyond their table (Z segment, segment ending with a field of datatype varies)
+_add(RejSpec('seg-z-T', 'segment', TOLERANT, 'ZZZ', 'ZZZ|p|q||r', A.ZZZ_NAMES, A.ZZZ_VALUES, {}, None, 'ZZZ|d1|d2'))
+_add(RejSpec('seg-qpd-S', 'segment', STRICT, 'QPD', 'QPD|Q||k|||x', A.QPD_NAMES, A.QPD_VALUES, {'QPD_1': 1}, None, 'QPD|D'))
 _add(RejSpec('fld-T', 'field', TOLERANT, 'PID_3', 'I^^^AA', A.FLD_NAMES, A.FLD_VALUES, A.FLD_MAX, A.FLD_LONG, 'DI^^^DA^DT'))
 _add(RejSpec('fld-S', 'field', STRICT, 'PID_3', 'I^^^AA', A.FLD_NAMES, A.FLD_VALUES, A.FLD_MAX, A.FLD_LONG, 'DI^^^DA^DT'))
 _add(RejSpec('msg-T', 'message', TOLERANT, 'ADT_A01', A.MSG, A.MSG_NAMES, A.MSG_VALUES, A.MSG_MAX, None, A.MSG.replace('NK1|1|A', 'NK1|5|DA')))
